@@ -406,7 +406,7 @@ def run(ctx):
                     if nbad == 0:
                         fails.append("spec: listed un-move %s is not consistent (%s)" % (ul1.split(" | ")[1], o[2:]))
                     nbad += 1
-            out.append((incl, pair, d, fails, c.get("req"), c.get("dom"), len(ul)))
+            out.append((incl, pair, d, fails, c.get("req"), c.get("dom"), len(ul), c))
         return out
     sres = pmap(spec_job, chunks(spec_items, 40))
     spec_flagged = []
@@ -415,7 +415,7 @@ def run(ctx):
             if len(t) == 4:
                 spec_flagged.append(t)
                 continue
-            incl, pair, d, fails, req, dom, nu = t
+            incl, pair, d, fails, req, dom, nu, c_extra = t
             ctx.count("spec_pairs_checked")
             ctx.count("spec_unmoves_checked_consistent", nu)
             if req == "1":
@@ -424,6 +424,17 @@ def run(ctx):
                 ctx.count("spec_P_outside_domain_(counts)")
             if req != d["req"]:
                 ctx.count("spec_and_harness_disagree_on_required")
+            # hypotheses of C15_complete_given_raw / C15_complete_partial, evaluated by the extracted tests
+            if c_extra.get("mf") == "1":
+                ctx.count("premise_MoveFacts_holds")
+            if c_extra.get("wfr") == "1":
+                ctx.count("premise_WFrev_executable_part_holds")
+            if c_extra.get("raw") == "1":
+                ctx.count("premise_move_in_model_raw_list_of_Q")
+            if req == "1" and "1" != c_extra.get("mf"):
+                fails.append("premise: MoveFacts (hypothesis of the completeness theorems) is false for a legal move")
+            if req == "1" and "1" != c_extra.get("wfr"):
+                fails.append("premise: WFrev (domain of the completeness theorems) is false for a position of the domain")
             if fails:
                 spec_flagged.append((incl, pair, d, fails))
     ctx.log("spec checked %d pairs: %d flagged" % (ctx.counts.get("spec_pairs_checked", 0), len(spec_flagged)))
